@@ -79,6 +79,10 @@ def wrap_data(o: Any, plan: FaultPlan) -> Any:
     return o
 
 
+def _same(a: tuple[Any, ...], b: tuple[Any, ...]) -> bool:
+    return len(a) == len(b) and all(x is y for x, y in zip(a, b))
+
+
 def _snap(context: Any) -> tuple[Any, ...]:
     return (
         tuple(context.scope._maps),
@@ -137,11 +141,26 @@ class FrameMonitor:
         return "[" + " ".join(out) + "]"
 
     def compare(self, context: Any, before: tuple[Any, ...], where: str, exc: BaseException | None,
-                entered: bool = True, run: int | None = None) -> None:
+                entered: bool = True, run: int | None = None, loops: bool = True,
+                late_lambda: str | None = None) -> None:
         """Compare the context with its snapshot; record the first event per category."""
         if run is not None and run != self.run:
             return  # a finaliser of an earlier run (late generator close): not this run's
         maps0, nl0, t0, d0, d0c, sc0 = before
+        if late_lambda is not None:
+            # a LambdaExpression.map generator closed late (GeneratorExit): whatever differs now
+            # is the consequence of its scope having stayed on the chain; one mechanism, one key
+            if (not _same(tuple(context.scope._maps), maps0) or context.template is not t0) and not any(
+                k.startswith("frame:lambda-scope-left-on-chain@") for k, _w, _d in self.events
+            ):
+                self._cats.add("scope")
+                self.events.append((
+                    f"frame:lambda-scope-left-on-chain@{late_lambda}",
+                    "a LambdaExpression.map generator was closed late; the context no longer matches "
+                    "the state at the time its scope was pushed",
+                    f"before={self._describe_maps(maps0)} after={self._describe_maps(tuple(context.scope._maps))}",
+                ))
+            return
         maps1 = tuple(context.scope._maps)
         via = f" on exceptional exit ({type(exc).__name__})" if exc is not None else " on normal exit"
         if "scope" not in self._cats and (
@@ -159,7 +178,7 @@ class FrameMonitor:
                 f"scope chain after {where} differs from the chain before it{via}",
                 f"before={self._describe_maps(maps0)} after={self._describe_maps(maps1)}",
             ))
-        if "loops" not in self._cats and len(context.loops) != nl0:
+        if loops and "loops" not in self._cats and len(context.loops) != nl0:
             self._cats.add("loops")
             if not entered:
                 key = f"frame:loop-frame-left-when-entry-fails@{where}"
@@ -282,6 +301,7 @@ class FrameMonitor:
             mon.origin[id(namespace)] = (label, namespace)
             mon.extend_origins.add(label)
             is_lambda = label.startswith("LambdaExpression.map")
+            flt = None
             if is_lambda:
                 flt = mon._consumer_filter(frame, self)
                 mon.lambda_scopes += 1
@@ -304,7 +324,10 @@ class FrameMonitor:
                 mon.extend_exits += 1
                 if exc is not None:
                     mon.extend_exc_exits += 1
-                mon.compare(self, before, where, exc, run=run)
+                # (RenderContext.loop pops its ForLoop inside the extend block it opens, so
+                # the loop stack is compared by the loop wrapper, not here)
+                mon.compare(self, before, where, exc, run=run, loops=False,
+                            late_lambda=flt if is_lambda and isinstance(exc, GeneratorExit) else None)
 
         @contextmanager
         def loop(self: Any, namespace: Any, forloop: Any):  # noqa: ANN202
